@@ -149,8 +149,13 @@ theorem eval_size_bound_num (env : Env) (m : Nat) (hm : 1 ≤ m)
     obtain ⟨va, hva, h⟩ := Reduino.Lemmas.C11.bind_eq_ok h
     simp only [bound]
     cases op
-    · cases h
-      have := eval_size_bound_num env m hm henv a _ k hp hva hk; omega
+    · simp only at h
+      split at h
+      · rename_i n hn
+        cases h
+        simp only [Val.num?, Option.some.injEq] at hk; subst hk
+        have := eval_size_bound_num env m hm henv a va n hp hva hn; omega
+      · cases h
     · simp only at h
       split at h
       · rename_i n hn
